@@ -64,6 +64,7 @@ def _gen_main(rng, tier):
 def gen(rng, tier):
     yield from _gen_main(rng, tier)
     yield from _grid(rng, tier)
+    yield from _huge(rng, tier)
 
 
 def _grid(rng, tier):
@@ -73,3 +74,15 @@ def _grid(rng, tier):
             for op in ("cmp", "op_lt", "eq", "max"):
                 for a, b in grid_pairs(rng, cfg, lim):
                     yield f"{op} {s}{cfg} {hx(a)} {hx(b)}", "edge-grid"
+
+
+def _huge(rng, tier):
+    for cfg in HUGE_CFGS:
+        vals = huge_values(rng, cfg)
+        k = 0
+        for a in vals:
+            for b in vals[:5]:
+                s = "ui"[k % 2]
+                op = ['cmp', 'eq', 'op_lt', 'max'][k % 4]
+                k += 1
+                yield f"{op} {s}{cfg} {hx(a)} {hx(b)}", "huge"
